@@ -91,6 +91,9 @@ func (evt *startEvent) run(ctx context.Context, sender tracing.ISenderHandle) {
 					m.response <- completeAction{}
 				}
 			case startMessage:
+				// an explicit trigger always lets a new token leave the
+				// start event (a sub-process can be activated repeatedly)
+				evt.activated.Store(false)
 				evt.flow(ctx)
 			case eventMessage:
 				if !evt.activated.Load() {
